@@ -79,6 +79,11 @@ func crashKey(o wk.Outcome) string {
 // rejected the program, i.e. it is outside the quantifier.
 func judge(t core.TB, k kase) (key, what, domain string) {
 	o := getWorker().Do("build_validate", wk.Src{Name: k.Name, Src: k.Src})
+	if o.Kind == wk.Exited && !fatalRe.MatchString(o.Output) {
+		// not a logger.Fatal: a long-lived worker can die of address-space exhaustion;
+		// only a death that repeats in a fresh process is attributed to the program
+		o = getWorker().Do("build_validate", wk.Src{Name: k.Name, Src: k.Src})
+	}
 	var r bvResult
 	o.Decode(&r)
 	switch o.Kind {
